@@ -19,8 +19,15 @@ def run(tier):
     trusted = _selfcheck(check)
     p = cxxwl.tier_params(tier)
     descs = cxxwl.prepare(check, tier)
-    results = common.pmap(cxxwl.worker, [{"di": i, "nv": p["nv"], "nb": p["nb"], "props": ["C14"], "valgrind": p["valgrind"]}
-                                         for i in range(len(descs))], nproc=8)
+    def flavours(d):
+        # quick: the (large) matrix descriptions are built once each - the little-endian twin with the
+        # asserts in, the big-endian twin with -DNDEBUG; everything else, and thorough, gets both builds
+        if tier == "quick" and d["profile"] == "matrix":
+            from .. import ast as A
+            return ["asan"] if A.endianness(d["file"]) == A.LE else ["asan-ndebug"]
+        return ["asan", "asan-ndebug"]
+    results = common.pmap(cxxwl.worker, [{"di": i, "nv": p["nv"], "nb": p["nb"], "props": ["C14"], "valgrind": p["valgrind"],
+                                          "flavours": flavours(descs[i])} for i in range(len(descs))], nproc=12)
     tot = rustwl.merge(check, results, "C14")
     ck, fl = {}, {}
     for r in results:
